@@ -120,6 +120,26 @@ TraceConsume ==
                       Sel("C04", C04_ConsumeFails(buf, Ev.n)), Flag("C04", TRUE))
     /\ UNCHANGED tag
 
+(***************************************************************************)
+(* The same bytes at another memory position (the receiver's buffer does   *)
+(* not start at the beginning of an allocation): what the crate reports    *)
+(* must not depend on it, so the harness logs such an observation only     *)
+(* where it differs from the one at the allocation's start.  It is judged  *)
+(* like the Recv / Consume event that follows it (same buffer, same        *)
+(* history) and leaves the state alone.                                    *)
+(***************************************************************************)
+TraceMoved ==
+    /\ IsEvent("Moved")
+    /\ LET chunk == Flat(Ev.c)
+       IN  Observe(buf \o chunk, hist, Ev.obs, Len(chunk), FALSE, {}, {})
+    /\ UNCHANGED << buf, verdict, hist, tag >>
+
+TraceMovedRest ==
+    /\ IsEvent("MovedRest")
+    /\ LET rest == SubSeq(buf, Ev.n + 1, Len(buf))
+       IN  Observe(rest, Hist0, Ev.obs, 0, FALSE, {}, {})
+    /\ UNCHANGED << buf, verdict, hist, tag >>
+
 TraceReparse ==
     /\ IsEvent("Reparse")
     /\ Emit(Sel("C04", C04_ReparseFails(Ev.ep, Flat(Ev.input), Ev.r, hist))
@@ -127,7 +147,7 @@ TraceReparse ==
             Flag("C04", TRUE))
     /\ UNCHANGED << buf, verdict, hist, tag >>
 
-TraceNext == TraceReset \/ TraceRecv \/ TraceHuge \/ TraceConsume \/ TraceReparse
+TraceNext == TraceReset \/ TraceRecv \/ TraceMoved \/ TraceHuge \/ TraceConsume \/ TraceMovedRest \/ TraceReparse
 
 TraceSpec == TraceInit /\ [][TraceNext]_tvars
 
